@@ -340,8 +340,6 @@ impl<Aux> Vm<'_, Aux> {
             &*program
         };
         let len = program.bytecode.len();
-        // FIXME: should store in VM
-        let mut remaining_iters = self.max_instr;
         let bytecode_ptr = program.bytecode.as_ptr();
         let payload_to_error =
             |err,
@@ -360,8 +358,10 @@ impl<Aux> Vm<'_, Aux> {
             };
 
         while *instr_ptr < len {
-            remaining_iters -= 1;
-            if remaining_iters == 0 {
+            // the budget belongs to the top level `run`: script functions called back by native
+            // functions (`run_function`) draw from the same counter
+            self.remaining_iters = self.remaining_iters.saturating_sub(1);
+            if self.remaining_iters == 0 {
                 return Err(payload_to_error(
                     ExecutionErrorPayload::Timeout,
                     *instr_ptr,
